@@ -213,6 +213,9 @@ def cmd_check(args) -> int:
                 print(z.get("log", ""))
     if twins_bad:
         print(f"  vacuity guard: twins not refuted: {twins_bad} (their families count as inconclusive)")
+    if selftest_bad:
+        print(f"harness error: engine self-test failed ({selftest_bad}); verdicts of this run are not trustworthy (exit 2, no VIOLATION line is printed)")
+        return 2
     seen = set()
     for k, r in known_hits:
         if k["id"] in seen:
@@ -222,9 +225,6 @@ def cmd_check(args) -> int:
     for r in violations + zviol:
         print(f"  violated: {r.obl.name}: {r.message[:300]} args={r.args} replay={r.replay}")
         print(f"VIOLATION property={prop} replay={r.replay_file}")
-    if selftest_bad:
-        print(f"harness error: engine self-test failed ({selftest_bad}); verdicts of this run are not trustworthy")
-        return 2
     if violations or zviol:
         return 1
     if harness_errors and not (nconf or zres):
